@@ -55,9 +55,16 @@ package tabula
 // ---- C10: after any terminal operation, successful or failed, no file handle remains open ----
 // typestate rule: a successful ensureReader() is immediately followed by `defer e.Close()`, so the reader opened for
 // this operation is closed on every exit.  (PageCount, IsCharacterLevel and IsMultiColumn are not terminal.)
-//@ func (*Extractor) Text
-//@   property C10
-//@   flags frameonly, releases
+//@ func (*Extractor) Text results (out, warns, err)
+//@   property C10, C11
+//@   flags nosafety, releases
+//@   callsite FilterFragments(pi, fr, h) requires pi == pd.index && sameseq(fr, pd.fragments)
+//@   loop 0:
+//@     invariant len(requestedPages) == $i && forall k int :: {requestedPages[k]} 0 <= k && k < $i ==> requestedPages[k].index == pageIndices[k]
+//@   loop 1:
+//@     invariant $i == 0 ==> len(result) == 0
+//@     step earlier_pages_kept: len(result) >= prev(len(result)) && forall k int :: {result[k]} 0 <= k && k < prev(len(result)) ==> result[k] == prev(result)[k]
+//@     step blank_line_between_pages: len(result) > prev(len(result)) && prev(len(result)) > 0 ==> len(result) >= prev(len(result)) + 2 && result[prev(len(result))] == 10 && result[prev(len(result)) + 1] == 10
 //@ func (*Extractor) ToMarkdownWithOptions
 //@   property C10
 //@   flags frameonly, releases
